@@ -68,7 +68,14 @@ def gen_case(rnd, prop, tier):
     cache = rnd.choice([None, None, 'many', 'bp'])
     if rows is not None and rnd.random() < (0.35 if cache is None else 0.8):
         rows2 = rnd.choice([100000, 20000]) if method == 'round' else rnd.choice([1, 7, 1000])
-    return dict(engine='E', attrs=attrs, sizes=sizes, cliques=cliques, kind=kind, pots=pots, total=total, elim=elim, method=method,
+    pots2 = None
+    if rows2 is not None and cache is None and rnd.random() < 0.5:
+        # the model is re-parameterised (new potentials assigned) between the two calls on the same object
+        pots2 = []
+        for cl in cliques:
+            shape = [sizes[attrs.index(a)] for a in cl]
+            pots2.append(gen.gen_potential(rnd, shape, scale, ninf, [witness[a] for a in cl]))
+    return dict(engine='E', attrs=attrs, sizes=sizes, cliques=cliques, kind=kind, pots=pots, pots2=pots2, total=total, elim=elim, method=method,
                 rows=rows, rows2=rows2, cache=cache, policy=dict(name=pol, rates=rates, shuffle=shuffle), rng_seed=rnd.getrandbits(32), fold='harness')
 
 
@@ -125,9 +132,9 @@ def model_state(model):
     return parts
 
 
-def run_once(mbi, case, model, rows, viol, faults, probes, seqs, tag):
+def run_once(mbi, case, model, rows, viol, faults, probes, seqs, tag, key='pots'):
     attrs, sizes, total = case['attrs'], case['sizes'], case['total']
-    pots_in = [(cl, gen.pot_array(case, k)) for k, cl in enumerate(case['cliques'])]
+    pots_in = [(cl, np.array(case[key][k], dtype=float).reshape(gen.clique_shape(case, cl))) for k, cl in enumerate(case['cliques'])]
     logp = refmodel.joint_logp(attrs, sizes, pots_in)
     z = refmodel.lse(logp)
     logP = logp - z      # log of the normalised joint
@@ -239,7 +246,13 @@ def run_case(case, prop):
         else:
             nontrivial = multi and probes.get('round-top-up', 0) > 0
         if case.get('rows2') and not viol:
-            rng2 = run_once(mbi, case, model, case['rows2'], viol, faults, probes, seqs, 'rows=%r (second call on the same model object, same policy)' % case['rows2'])
+            key = 'pots'
+            if case.get('pots2'):
+                model.potentials = a_bp.fold(mbi, dict(case, pots=case['pots2']), model)
+                key = 'pots2'
+                faults['model-reparameterised-between-calls'] = 1
+            rng2 = run_once(mbi, case, model, case['rows2'], viol, faults, probes, seqs, 'rows=%r (second call on the same model object%s, same policy)' % (
+                case['rows2'], ' after new potentials were assigned' if key == 'pots2' else ''), key=key)
             steps += len(rng2.events)
             probes['second-call-same-object'] = 1
             faults['model-object-reuse'] = 1
@@ -260,28 +273,35 @@ def run_case(case, prop):
 
 
 def shrink(case, prop):
+    if case.get('pots2'):
+        c = copy.deepcopy(case)
+        c['pots2'] = None
+        yield c
     if case.get('rows2'):
         c = copy.deepcopy(case)
         c['rows2'] = None
+        c['pots2'] = None
         yield c
         c = copy.deepcopy(case)
         c['rows'], c['rows2'] = case['rows2'], None
         yield c
     for k in range(len(case['cliques'])):
-        yield gen.drop_index(case, 'cliques', k, also=('pots',))
+        yield gen.drop_index(case, 'cliques', k, also=('pots', 'pots2'))
     for a in case['attrs']:
         if len(case['attrs']) > 1:
-            c = gen.drop_attr(case, a)
+            c = gen.drop_attr(case, a, pot_keys=(('cliques', 'pots'), ('cliques', 'pots2')))
             keep = [k for k, cl in enumerate(c['cliques']) if len(cl) > 0]
             c['cliques'] = [c['cliques'][k] for k in keep]
             c['pots'] = [c['pots'][k] for k in keep]
+            if c.get('pots2'):
+                c['pots2'] = [c['pots2'][k] for k in keep]
             if isinstance(c['elim'], list):
                 c['elim'] = [x for x in c['elim'] if x != a]
             yield c
     for a, s in zip(case['attrs'], case['sizes']):
         for new in (1, 2):
             if s > new:
-                yield gen.resize_attr(case, a, new)
+                yield gen.resize_attr(case, a, new, pot_keys=(('cliques', 'pots'), ('cliques', 'pots2')))
     if case['rows'] is not None:
         for r in (1, 2, 7, 50, 1000):
             if r < case['rows']:
